@@ -119,6 +119,7 @@ func Load(dir string, overlay map[string][]byte, full bool) (*Prog, error) {
 		}
 		return a.String() < b.String()
 	})
+	initHelpers(p)
 	return p, nil
 }
 
@@ -274,6 +275,9 @@ func (p *Prog) NamedType(pkg, typ string) *types.Named {
 func (p *Prog) FuncsIn(pkgs ...string) []*ssa.Function {
 	var out []*ssa.Function
 	for _, f := range p.Funcs {
+		if Transparent(f) {
+			continue // a transparent helper is enumerated through its callers (Instrs is deep)
+		}
 		pp := PkgPathOf(f)
 		for _, k := range pkgs {
 			if pp == k {
@@ -287,6 +291,18 @@ func (p *Prog) FuncsIn(pkgs ...string) []*ssa.Function {
 
 // FuncName renders a short, stable name for a function: (*T).m, f, f$1.
 func FuncName(fn *ssa.Function) string {
+	if fn == nil {
+		return "<nil>"
+	}
+	if Transparent(fn) {
+		// a transparent helper is named after the known function(s) it is part of
+		return OwnerName(fn)
+	}
+	return rawFuncName(fn)
+}
+
+// rawFuncName is the function's own name, whatever its role.
+func rawFuncName(fn *ssa.Function) string {
 	if fn == nil {
 		return "<nil>"
 	}
@@ -313,7 +329,7 @@ func QualName(fn *ssa.Function) string {
 	if i := strings.LastIndex(pp, "/"); i >= 0 {
 		pp = pp[i+1:]
 	}
-	return pp + "." + FuncName(fn)
+	return pp + "." + rawFuncName(fn)
 }
 
 // Syntax returns the AST file set of a package.
